@@ -82,7 +82,7 @@ class Func:
             else:
                 lines.append(ln)
         # the entry block label is the number after the (unnamed) parameters
-        nun = len([1 for (t, n) in params if n is None])
+        nun = len([1 for (t, n) in params if n is None or re.fullmatch(r'%\d+', n)])
         cur = str(nun)
         # named params: entry label is still an unnamed counter
         self.entry = None
